@@ -110,7 +110,16 @@ GetItem(t, ra, c) ==
 
 MostDerived(t, c, d) == IF IsSub(t, c, d) THEN c ELSE d
 
-RecsOf(h, ids) == [i \in 1..Len(ids) |-> h[ids[i]]]
+(* A namespace operand is either a heap id (> 0) or an EXTRACTION reference (< 0):     *)
+(* -(16 * set + cls) stands for the namespace object obtained from a live set by        *)
+(* set[cls] / iteration - e.g. the default namespace instance held by a class's shared *)
+(* default set.  Its record is the set's constituent; which object it is never matters *)
+(* to the required value.                                                               *)
+Ref(ra, k) == 0 - (16 * ra + k)
+RefRa(i) == (0 - i) \div 16
+RefK(i) == (0 - i) % 16
+At(h, i) == IF i > 0 THEN h[i] ELSE NsRec(RefK(i), h[RefRa(i)].v[RefK(i)])
+RecsOf(h, ids) == [i \in 1..Len(ids) |-> At(h, ids[i])]
 
 \* constituent namespaces of ra compatible with cls, as records (ascending class)
 RECURSIVE CompatFrom(_, _, _, _)
@@ -134,8 +143,8 @@ Expected(t, h, op) ==
          IF KwUnknown(op.cls, op.kw) THEN Rej({"UnknownArgsFieldError"})
          ELSE Acc(NsRec(op.cls, ApplyKw(DefVals(op.cls), op.kw)), NoReq)
     [] op.op = "NsUpdate" ->
-         IF KwUnknown(h[op.a].c, op.kw) THEN Rej({"UnknownArgsFieldError"})
-         ELSE Acc(NsRec(h[op.a].c, ApplyKw(h[op.a].v, op.kw)), NoReq)
+         IF KwUnknown(At(h, op.a).c, op.kw) THEN Rej({"UnknownArgsFieldError"})
+         ELSE Acc(NsRec(At(h, op.a).c, ApplyKw(At(h, op.a).v, op.kw)), NoReq)
     [] op.op = "New" ->
          Construct(t, Req(op.cls, IF op.a = 0 THEN Nil ELSE h[op.a], RecsOf(h, op.nss)))
     [] op.op = "UpdateNs" ->
@@ -154,11 +163,11 @@ Expected(t, h, op) ==
          ELSE IF IsSub(t, ra.c, op.cls)
               THEN Construct(t, Req(op.cls, Nil, CompatFrom(t, ra, op.cls, 1)))
          ELSE Rej({"ValueError"})
-    [] op.op = "Or" -> OrReq(t, h[op.a], h[op.b], FALSE)
-    [] op.op = "Ror" -> OrReq(t, h[op.a], h[op.b], TRUE)
-    [] op.op = "Pos" -> Construct(t, Req(h[op.a].c, Nil, <<h[op.a]>>))
+    [] op.op = "Or" -> OrReq(t, At(h, op.a), At(h, op.b), FALSE)
+    [] op.op = "Ror" -> OrReq(t, At(h, op.a), At(h, op.b), TRUE)
+    [] op.op = "Pos" -> Construct(t, Req(At(h, op.a).c, Nil, <<At(h, op.a)>>))
     [] op.op = "ToRenderArgs" ->
-         Construct(t, Req(IF op.cls < 0 THEN h[op.a].c ELSE op.cls, Nil, <<h[op.a]>>))
+         Construct(t, Req(IF op.cls < 0 THEN At(h, op.a).c ELSE op.cls, Nil, <<At(h, op.a)>>))
 
 (* ------------------------------------------------------------------------ *)
 (* Observable relations over a heap                                           *)
